@@ -441,7 +441,14 @@ def gen_pv_cases(rng, n_cases, ops_per_case):
         kind = rng.choice(PV_KINDS)
         specs.append((kind,) + pv_spec(rng, kind))
     sign_batch([r for s in specs for r in s[1]])
-    ops = [pv_op(f(), rs) + f" #{kind}" for kind, _, f, rs in specs]
+    ops = []
+    for kind, _, f, rs in specs:
+        ops.append(pv_op(f(), rs) + f" #{kind}")
+        if kind == "honest" and rng.random() < 0.6:
+            # the payload that has just been verified, replayed in a session with another static key (any state kept
+            # between verifications must not make it acceptable)
+            rs2 = rbytes(rng, 32) if rng.random() < 0.7 else bytes(b ^ (1 if k == 0 else 0) for k, b in enumerate(rs))
+            ops.append(pv_op(f(), rs2) + " #replay-other-static")
     return [ops[k:k + ops_per_case] for k in range(0, len(ops), ops_per_case)]
 
 
